@@ -84,7 +84,7 @@ def confirm_prop(root, prop):
         rec["seconds"] = round(time.time() - t0)
         print(json.dumps({k: rec[k] for k in ("property", "mutant", "ok", "steps", "seconds")}), flush=True)
         if rec["ok"]:
-            dst = os.path.join(SEEDED, "%s-%s" % (prop, n))
+            dst = os.path.join(SEEDED, "%s-%s%s" % (prop, os.environ.get("SEEDED_PREFIX", ""), n))
             os.makedirs(dst, exist_ok=True)
             for f in ("patch.diff", "demo.rs", "README.md"):
                 if os.path.exists(os.path.join(wt, "mutants", n, f)):
